@@ -270,9 +270,187 @@ typename std::enable_if<sbepp::is_data<T>::value, cursor_ret>::type
     return r;
 }
 
+// ---- recursive visitor (C19): logs every callback with the cursor position
+struct vevent
+{
+    std::string ev, key;
+    bytes val;
+    std::uint64_t n = 0;
+    std::ptrdiff_t cur = 0;
+};
+// key of a level member's tag: specialised by the generated dispatch, one per
+// tag type (so the tag identity is observed, not a name reported by a trait)
+template<typename Tag>
+struct tagkey_t;
+
+template<typename Tag, typename = void>
+struct elem_name
+{
+    static std::string get()
+    {
+        return "?";
+    }
+};
+template<typename Tag>
+struct elem_name<Tag, typename std::enable_if<sbepp::is_type_tag<Tag>::value>::type>
+{
+    static std::string get()
+    {
+        return sbepp::type_traits<Tag>::name();
+    }
+};
+template<typename Tag>
+struct elem_name<Tag, typename std::enable_if<sbepp::is_enum_tag<Tag>::value>::type>
+{
+    static std::string get()
+    {
+        return sbepp::enum_traits<Tag>::name();
+    }
+};
+template<typename Tag>
+struct elem_name<Tag, typename std::enable_if<sbepp::is_set_tag<Tag>::value>::type>
+{
+    static std::string get()
+    {
+        return sbepp::set_traits<Tag>::name();
+    }
+};
+template<typename Tag>
+struct elem_name<Tag, typename std::enable_if<sbepp::is_composite_tag<Tag>::value>::type>
+{
+    static std::string get()
+    {
+        return sbepp::composite_traits<Tag>::name();
+    }
+};
+
+template<typename T>
+typename std::enable_if<sbepp::is_array_type<T>::value, bytes>::type venc(T v)
+{
+    return enc(v);
+}
+template<typename T>
+typename std::enable_if<
+    !sbepp::is_array_type<T>::value && !sbepp::is_composite<T>::value,
+    bytes>::type
+    venc(T v)
+{
+    return enc(v);
+}
+
+template<typename Byte>
+struct rec_visitor
+{
+    char* base;
+    sbepp::cursor<Byte>* top;
+    int stop;
+    std::vector<vevent>* log;
+    int count = 0;
+    bool stopped = false;
+    rec_visitor(char* b, sbepp::cursor<Byte>* t, int s, std::vector<vevent>* l)
+        : base(b), top(t), stop(s), log(l)
+    {
+    }
+    std::vector<std::string> comp;         // composite key prefix stack
+    std::vector<std::uint64_t> entry_idx;  // entry counters of open groups
+    std::vector<std::string> group_key;
+
+    bool emit(const char* ev, const std::string& key, bytes val, std::uint64_t n)
+    {
+        vevent e;
+        e.ev = ev;
+        e.key = key;
+        e.val = std::move(val);
+        e.n = n;
+        e.cur = top->pointer() - base;
+        log->push_back(std::move(e));
+        if(++count == stop)
+            stopped = true;
+        return stopped;
+    }
+
+    template<typename T, typename Cursor, typename Tag>
+    bool on_group(T g, Cursor& c, Tag)
+    {
+        const std::string key = tagkey_t<Tag>::get();
+        if(emit("group", key, {}, static_cast<std::uint64_t>(g.size())))
+            return true;
+        entry_idx.push_back(0);
+        group_key.push_back(key);
+        sbepp::visit_children(g, c, *this);
+        entry_idx.pop_back();
+        group_key.pop_back();
+        return stopped;
+    }
+    template<typename T, typename Cursor>
+    bool on_entry(T e, Cursor& c)
+    {
+        if(emit("entry", group_key.back(), {}, ++entry_idx.back()))
+            return true;
+        sbepp::visit_children(e, c, *this);
+        return stopped;
+    }
+    template<typename T, typename Tag>
+    bool on_data(T d, Tag)
+    {
+        bytes b;
+        for(auto it = d.begin(); it != d.end(); ++it)
+            b.push_back(static_cast<unsigned char>(*it));
+        return emit("data", tagkey_t<Tag>::get(), std::move(b), 0);
+    }
+    template<typename T, typename Tag>
+    typename std::enable_if<sbepp::is_composite<T>::value, bool>::type
+        on_field(T v, Tag)
+    {
+        const std::string key = tagkey_t<Tag>::get();
+        if(emit("field", key, {}, 0))
+            return true;
+        comp.push_back(key);
+        sbepp::visit_children(v, *this);
+        comp.pop_back();
+        return stopped;
+    }
+    template<typename T, typename Tag>
+    typename std::enable_if<!sbepp::is_composite<T>::value, bool>::type
+        on_field(T v, Tag)
+    {
+        return emit("field", tagkey_t<Tag>::get(), venc(v), 0);
+    }
+    template<typename T, typename Tag>
+    bool on_type(T v, Tag)
+    {
+        return emit("type", comp.back() + "/" + elem_name<Tag>::get(), venc(v), 0);
+    }
+    template<typename T, typename Tag>
+    bool on_enum(T v, Tag)
+    {
+        return emit("enum", comp.back() + "/" + elem_name<Tag>::get(), venc(v), 0);
+    }
+    template<typename T, typename Tag>
+    bool on_set(T v, Tag)
+    {
+        return emit("set", comp.back() + "/" + elem_name<Tag>::get(), venc(v), 0);
+    }
+    template<typename T, typename Tag>
+    bool on_composite(T v, Tag)
+    {
+        comp.push_back(comp.back() + "/" + elem_name<Tag>::get());
+        sbepp::visit_children(v, *this);
+        comp.pop_back();
+        return stopped;
+    }
+};
+
+struct visit_ops
+{
+    // returns the cursor offset (relative to the message start) afterwards
+    std::function<std::ptrdiff_t(char*, std::size_t, int, std::vector<vevent>&)> run;
+};
+
 struct registry
 {
     std::map<std::string, member_ops> members;
+    std::map<std::string, visit_ops> visits;
     std::map<std::string, leaf_ops> leaves;
     std::map<std::string, level_ops> levels;
     std::map<std::string, group_ops> groups;
@@ -318,6 +496,13 @@ struct reg_member
     reg_member(const char* k, member_ops o)
     {
         registry::get().members[k] = std::move(o);
+    }
+};
+struct reg_visit
+{
+    reg_visit(const char* k, visit_ops o)
+    {
+        registry::get().visits[k] = std::move(o);
     }
 };
 struct reg_message
@@ -375,6 +560,34 @@ void assign_data(D d, const bytes& b)
                 return static_cast<std::uint64_t>(                            \
                     ::sbepp::get_header(M{p, n}).blockLength().value());      \
             }})
+
+#define VH_TAGKEY(TAG, KEY)            \
+    namespace vh                       \
+    {                                  \
+    template<>                         \
+    struct tagkey_t<TAG>               \
+    {                                  \
+        static const char* get()       \
+        {                              \
+            return KEY;                \
+        }                              \
+    };                                 \
+    }
+
+#define VH_REG_VISIT(KEY, M)                                                  \
+    static ::vh::reg_visit VH_CAT(vh_r_, __COUNTER__)(                        \
+        KEY,                                                                  \
+        ::vh::visit_ops{[](char* p,                                           \
+                           std::size_t n,                                     \
+                           int stop,                                          \
+                           std::vector<::vh::vevent>& log) -> std::ptrdiff_t  \
+                        {                                                     \
+                            M m{p, n};                                        \
+                            auto c = ::sbepp::init_cursor(m);                 \
+                            ::vh::rec_visitor<VH_BYTE> v{p, &c, stop, &log};  \
+                            ::sbepp::visit_children(m, c, v);                 \
+                            return c.pointer() - p;                           \
+                        }})
 
 #define VH_REG_LEVEL(KEY, M, LV)                                              \
     static ::vh::reg_level VH_CAT(vh_r_, __COUNTER__)(                        \
